@@ -58,7 +58,7 @@ static void judge(int i, int be, size_t psize, int ret, int want, const char *en
     if (!ret) { snprintf(sig, sizeof(sig), "C13/%s/init-failed", INITNAME[i]); violation(sig, cd, "%s returned 0 (%s)", INITNAME[i], envdesc); return; }
     if (be != want) {
         snprintf(sig, sizeof(sig), "C13/%s/%s", INITNAME[i], be > want ? "selected-unsupported-back-end" : "fell-back-to-narrower-back-end");
-        violation(sig, cd, "%s selected %s, expected %s (%s)", INITNAME[i], be < 0 ? "unknown vtable" : be_name(be), be_name(want), envdesc);
+        violation(sig, cd, "%s selected %s, expected %s (%s)", INITNAME[i], be == -3 ? "a function table whose entries belong to different back ends" : (be < 0 ? "unknown vtable" : be_name(be)), be_name(want), envdesc);
     }
     if (i >= 3 && (int)psize != par_batch(c, want)) {
         snprintf(sig, sizeof(sig), "C13/%s/parallel_size", INITNAME[i]);
